@@ -1,33 +1,50 @@
 """C20 — Static asset and template lookup never escapes its root directory (DESIGN.md §2 C20)."""
-from ..cfg import search, witness_str, dominated_by_edge, elem_dominates
-from ..expr import show, walk, last, field_of, strip_wrappers, strip_casts, short, const_value, is_assign, assign_parts as _ap, strip_views
+import re
+
+from ..cfg import search, dominated_by_edge, Forward
+from ..expr import show, walk, last, strip_casts, short, const_value, is_assign, assign_parts as _ap, strip_views
 from ..facts import AnalysisBroken
-from ..finite import dominating_facts
+from ..finite import dominating_facts, flatten_fact
 from ..rules import common
-from .c15 import asg, key_of, _reach_until_ret
 
 TITLE = "Static asset and template lookup never escapes its root directory"
-TECHNIQUE = 'sanitiser-flow analysis over dominating branch facts at every lookup site (resolved path -> error test -> containment of that same variable -> regular file -> read); closed set of file readers with a constant O_NOFOLLOW flag word; deny list of string-prefix path comparisons'
+TECHNIQUE = 'sanitiser-flow analysis (forward must-analysis of path values: how a path was derived + which checks hold for it, followed through helper functions by return-value-conditional summaries) at every call that reaches a file reader; closed set of file readers with a constant O_NOFOLLOW flag word; deny list of string-prefix path comparisons'
 AS = "iora::web::Assets"
 AF = "iora/web/assets.hpp"
 O_NOFOLLOW, O_CLOEXEC, O_ACCMODE = 0o400000, 0o2000000, 0o3
 READ_PRIMS = ("open", "openat", "fopen", "creat", "read", "pread", "mmap", "readlink")
+FD_PRIMS = ("read", "pread", "mmap")
 STREAMS = ("std::basic_ifstream", "std::basic_fstream", "std::basic_filebuf")
+PATH_MUTATORS = ("assign", "swap", "clear", "operator=", "operator/=", "operator+=", "append", "concat", "replace_filename", "remove_filename", "replace_extension", "make_preferred")
+CANON = ("std::filesystem::weakly_canonical", "std::filesystem::canonical")
 
 EXPLANATION = (
-    "Containment is a sanitiser-flow statement and is decided from the shape of assets.hpp. R1 closed set of file readers: the only "
-    "primitives that open or read a file are in readFile (::open with a constant flag word containing O_NOFOLLOW and O_CLOEXEC, read-only; "
-    "::read on that descriptor); readFile is called only from buildEntry and getTemplateFilesystem, buildEntry only from the three "
-    "lookup sites. R2 lexical gate: getStatic/getTemplate call lexicallyRejected(name) first and leave on its true edge; the four "
-    "rejections (leading '/', NUL, backslash, a '..' segment found by splitting on '/') are present. R3 sanitiser flow at each lookup "
-    "site: the path handed to buildEntry/readFile is the variable assigned from weakly_canonical(candidate, ec); ec was tested; that "
-    "same variable was the TARGET argument of a dominating isContained(base, resolved) on its true edge; is_regular_file on the same "
-    "variable dominates the read; base is the canonical root (stored at construction, or canonicalised on the spot for the external "
-    "directory); candidate = root / request. R4 isContained is component-wise (lexically_relative + first-component '..' test), no "
-    "string-prefix comparison on paths anywhere in the file. R5 the caches are consulted only behind R3's checks. R6 the roots are "
-    "canonicalised in fromDirectory before the object exists. R7 the gzip sibling is read through the same O_NOFOLLOW reader.")
+    "Containment is a sanitiser-flow statement and is decided from the shape of assets.hpp by a forward must-analysis of path values "
+    "(how each path variable was derived — root / request, weakly_canonical(…), parent_path, + \".gz\" — and which checks hold for its current "
+    "value: error code tested, isContained(base, it) true, is_regular_file(it) true), followed into helper functions of the class through "
+    "summaries that are conditional on the helper's return value (bool / enum / out-parameter). R1 closed set of file readers: the only "
+    "primitives that open or read a file are in readFile (::open of its own parameter with a constant flag word containing O_NOFOLLOW and "
+    "O_CLOEXEC, read-only); every function that hands its own path parameter on to a reader is private, so every path that can reach the "
+    "open starts at a call site R3 or R7 judges. R2 lexical gate: getStatic/getTemplate call lexicallyRejected(request) first and leave on "
+    "its true edge; the four rejections (leading '/', NUL, backslash, a '..' segment found by splitting on '/') are present, wherever in "
+    "the gate or its helpers they are written. R3 sanitiser flow at each call that passes a locally computed path to a reader: the value "
+    "is the result of weakly_canonical(root / request, ec); ec was tested; that same value passed isContained(base, value) on its true edge; "
+    "is_regular_file(value) holds; base is the canonical root of that lookup (stored at construction, or canonicalised on the spot for "
+    "the external directory). R4 isContained is component-wise (lexically_relative + first-component '..' test), no string-prefix "
+    "comparison on paths anywhere in the file. R5 the caches are consulted only behind R3's checks and filled only after the read. R6 the "
+    "roots are canonicalised in fromDirectory before the object exists and written nowhere else. R7 a function that forwards its path "
+    "parameter to a reader reads nothing but that path and its constant-suffix sibling (.gz) through the same O_NOFOLLOW reader.")
 NOT_DECIDED = ["what weakly_canonical and the kernel do (trusted base)", "swaps of intermediate directories between check and open (documented residual; O_NOFOLLOW covers the leaf, the clause the property states)",
                "percent-decoding (done by the caller, by contract)"]
+# exempt from the function-inventory guard (report.py): these rules look into / hold inside functions they have never seen
+FOLLOWS_HELPERS = {
+    "C20-R1": "universal: a file-opening primitive outside the one opener is a violation wherever it is written; the opener and the set of functions that forward a path to it are computed (fixpoint over all of assets.hpp), not listed",
+    "C20-R2": "the conditions under which the gate rejects are collected wherever they are written: in lexicallyRejected or in any helper of the class whose result it returns; the segment-split clause is evaluated in whichever function holds the '..' comparison",
+    "C20-R3": "every call in assets.hpp that passes a locally computed path to a (computed) reader is judged; checks done inside helpers are followed by return-value-conditional summaries, anything the summaries cannot express is a refusal, not a report",
+    "C20-R5": "the state required at a cache access is computed by the same flow analysis; an access inside a helper is lifted to the helper's call sites",
+    "C20-R6": "a root handed to ANY callee by non-const reference (or mutated / assigned) outside fromDirectory is reported at that call site, whatever the callee does; a root computed through a helper in fromDirectory is a refusal",
+    "C20-R7": "applies to every function found to forward its path parameter to a reader, known or new",
+}
 
 
 def af(ctx, name):
@@ -37,10 +54,669 @@ def af(ctx, name):
     return fs[0]
 
 
+# ------------------------------------------------------------------ small expression helpers (no local-variable names anywhere)
+
+def asg(n):
+    """(lhs, rhs) of a plain assignment (built-in or overloaded)"""
+    if n.get("k") in ("bin", "opcall") and is_assign(n) and n.get("op") == "=":
+        p = _ap(n)
+        return p[0], p[2]
+    return None
+
+
+def tyname(t):
+    return re.sub(r"\bconst\b|&|\s", "", t) if isinstance(t, str) else ""
+
+
+def is_path_type(t):
+    return tyname(t) == "std::filesystem::path"
+
+
+def is_ec_type(t):
+    return tyname(t) == "std::error_code"
+
+
+def xargs(n):
+    """explicit arguments of a call-like node"""
+    return [a for a in n.get("args", []) if not a.get("def")]
+
+
+def var_d(n, views=True):
+    """declaration id of the variable an expression names (looking through copies / conversions when views), else None"""
+    n = strip_views(n) if views else strip_casts(n)
+    return n.get("d") if n is not None and n.get("k") == "var" else None
+
+
+def decl_vars(f):
+    """declaration id -> [variable record of every declaration statement of it] (locals only)"""
+    out = {}
+    for e in f.stmts():
+        if e.node.get("k") == "decl":
+            for v in e.node["vars"]:
+                out.setdefault(v["d"], []).append(v)
+    return out
+
+
+def assigned_ds(f):
+    """declaration ids written after their declaration (assignment, compound assignment incl. overloaded ones, ++/--, a mutating path member)"""
+    out = f.__dict__.get("_c20_assigned")
+    if out is not None:
+        return out
+    out = set()
+    for n in f.nodes.values():
+        d = None
+        if n.get("k") in ("bin", "opcall") and is_assign(n):
+            d = var_d(_ap(n)[0], views=False)
+        elif n.get("k") == "opcall" and n.get("memberop") and (n.get("op") or "").endswith("=") and n.get("op") not in ("==", "!=", "<=", ">=") and n.get("args"):
+            d = var_d(n["args"][0], views=False)
+        elif n.get("k") == "un" and ("++" in n.get("op", "") or "--" in n.get("op", "")):
+            d = var_d(n.get("v"), views=False)
+        elif n.get("k") == "mcall" and last(n.get("callee", "")) in PATH_MUTATORS:
+            d = var_d(n.get("obj"), views=False)
+        if d is not None:
+            out.add(d)
+    f.__dict__["_c20_assigned"] = out
+    return out
+
+
+def _subst(n, table):
+    if not isinstance(n, dict):
+        return n
+    if n.get("k") == "var" and n.get("d") in table:
+        return table[n["d"]]
+    out = None
+    for k, v in n.items():
+        if isinstance(v, dict):
+            nv = _subst(v, table)
+            if nv is not v:
+                out = out or dict(n)
+                out[k] = nv
+        elif isinstance(v, list):
+            nl = [_subst(x, table) for x in v]
+            if any(a is not b for a, b in zip(nl, v)):
+                out = out or dict(n)
+                out[k] = nl
+    return out or n
+
+
+def named_conditions(f):
+    """`const bool hasNul = p.find('\\0') != npos; … if (hasNul || …)`, `const Resolution res = resolveBelow(…); switch (res)`: a local that is
+    never re-assigned, initialised from a call / comparison / logical expression that reads only things which are never re-assigned in the
+    function, stands for that initialiser wherever it is tested (naming a condition or a result changes nothing)."""
+    tab = f.__dict__.get("_c20_named")
+    if tab is None:
+        tab = {}
+        wr = assigned_ds(f)
+        for d, vs in decl_vars(f).items():
+            if len(vs) != 1 or d in wr or not isinstance(vs[0].get("init"), dict) or not isinstance(vs[0].get("t"), str) or vs[0]["t"].rstrip().endswith("&") or is_path_type(vs[0]["t"]):
+                continue
+            i = strip_casts(vs[0]["init"])
+            if i is None or not (i.get("k") in ("call", "mcall", "un") or common.cmp_parts(i) or (i.get("k") == "bin" and i.get("op") in ("&&", "||"))):
+                continue
+            if tyname(vs[0]["t"]) != "bool" and not (i.get("k") in ("call", "mcall") and (i.get("callee") or "").startswith(AS + "::")):
+                continue        # besides bools: the stored result of a function of the class (an enum / int verdict)
+            if not any(x.get("k") == "var" and x.get("d") in wr for x in walk(i)):
+                tab[d] = vs[0]["init"]
+        f.__dict__["_c20_named"] = tab
+    return tab
+
+
+def unname(f, c):
+    tab = named_conditions(f)
+    for _ in range(4):
+        if c is None or not tab or not any(x.get("k") == "var" and x.get("d") in tab for x in walk(c)):
+            break
+        c = _subst(c, tab)
+    return c
+
+
+def sufficient(c, truth):
+    """leaves (node, truth) each of which ALONE makes `c` evaluate to `truth` (a || b is true when a is; a && b is false when a is);
+    a conjunction that must hold as a whole yields nothing: `if (hasNul && other) reject` does not reject every NUL"""
+    c = strip_casts(c)
+    if c is None:
+        return []
+    if c.get("k") == "un" and c.get("op") == "!":
+        return sufficient(c["v"], not truth)
+    if c.get("k") == "bin" and c.get("op") == "||":
+        return sufficient(c["lhs"], True) + sufficient(c["rhs"], True) if truth else []
+    if c.get("k") == "bin" and c.get("op") == "&&":
+        return sufficient(c["lhs"], False) + sufficient(c["rhs"], False) if not truth else []
+    return [(c, truth)]
+
+
+# ------------------------------------------------------------------ path-value flow analysis (A12, interprocedural)
+#
+# abstract value of a path variable = (term, flags)
+#   term : how the current value was derived
+#          ("param", i) | ("field", qualified name) | ("join", a, b) | ("canon", a) | ("parent", a) | ("filename", a) | ("concat", a, "lit")
+#          | ("lex", op, a) (absolute / lexically_normal: no symlink resolution) | ("str", "lit") | ("new",) | ("unknown", why)
+#          | ("sel", call id, alternatives)   — written by a helper; which alternative holds is decided where the helper's result is tested
+#   flags: what is known to hold for that value on every path to this point
+#          "ecok" (the error code of the resolving call was tested and clear) | ("ecpend", d) (not yet tested, error_code variable d)
+#          | ("ecunk", d) (tested in a way the rule cannot read) | ("in", base term) (isContained(base, value) returned true) | "regular"
+
+def has_unknown(t):
+    return isinstance(t, tuple) and (t[:1] in (("unknown",), ("sel",)) or any(has_unknown(x) for x in t[1:] if isinstance(x, tuple)))
+
+
+def subterm(a, b):
+    """a occurs inside b"""
+    return a == b or (isinstance(b, tuple) and any(subterm(a, x) for x in b[1:] if isinstance(x, tuple)))
+
+
+def mentions(t, head):
+    return isinstance(t, tuple) and (t[0] == head or any(mentions(x, head) for x in t[1:] if isinstance(x, tuple)))
+
+
+def render(t, f=None):
+    h = t[0]
+    if h == "param":
+        return f.params[t[1]]["n"] if f is not None and t[1] < len(f.params) else "parameter %d" % t[1]
+    if h == "field":
+        return short(t[1])
+    if h == "join":
+        return "%s / %s" % (render(t[1], f), render(t[2], f))
+    if h == "canon":
+        return "weakly_canonical(%s)" % render(t[1], f)
+    if h in ("parent", "filename"):
+        return "%s.%s()" % (render(t[1], f), "parent_path" if h == "parent" else "filename")
+    if h == "concat":
+        return '%s + "%s"' % (render(t[1], f), t[2])
+    if h == "lex":
+        return "%s(%s)" % (t[1], render(t[2], f))
+    if h == "str":
+        return '"%s"' % t[1]
+    if h == "new":
+        return "path()"
+    if h == "sel":
+        return "<written by a helper>"
+    return "<%s>" % (t[1] if len(t) > 1 else "?")
+
+
+class PathFlow:
+    def __init__(self, fb):
+        self.fb = fb
+        self.contain = None       # (Function, index of the base parameter, index of the target parameter) — set from R4's reading of isContained
+        self._flow = {}
+        self._sum = {}
+        self._active = set()
+
+    # ---- callee resolution: functions defined in assets.hpp
+    def local_fn(self, n):
+        c = n.get("callee") or ""
+        if not c.startswith(AS + "::"):
+            return None
+        fs = [g for g in self.fb.by_name.get(c, []) if g.ok and g.file.endswith(AF)]
+        if len(fs) > 1:
+            fs = [g for g in fs if len(g.params) >= len(xargs(n))][:1] if len({(g.file, g.line) for g in fs}) == 1 else []
+        return fs[0] if len(fs) == 1 else None
+
+    # ---- state: tuple of (d, (term, flags)) sorted by d
+    @staticmethod
+    def sget(st, d):
+        for k, av in st:
+            if k == d:
+                return av
+        return None
+
+    @staticmethod
+    def sset(st, d, av):
+        return tuple(sorted([(k, v) for k, v in st if k != d] + [(d, av)], key=lambda kv: kv[0]))
+
+    @staticmethod
+    def collapse(av):
+        t, fl = av
+        if t[0] != "sel":
+            return av
+        alts = list(t[2])
+        if alts and all(a[1] == alts[0][1] for a in alts):
+            fls = frozenset.intersection(*[a[2] for a in alts])
+            return alts[0][1], fls
+        return ("unknown", "which value the helper left depends on its result, which is not tested"), frozenset()
+
+    @staticmethod
+    def meet(fa, fb):
+        """flags that hold on both ways in.  An error code tested on one way and still to be tested on the other (`ec || …` computed as a
+        value: the short-circuit edge and the evaluated edge meet before the branch) is still to be tested."""
+        pend = {x for x in fa | fb if isinstance(x, tuple) and x[0] == "ecpend" and (x in fa or "ecok" in fa) and (x in fb or "ecok" in fb)}
+        return (fa & fb) | frozenset(pend) if not ("ecok" in fa and "ecok" in fb) else (fa & fb)
+
+    @staticmethod
+    def join(a, b):
+        if a == b:
+            return a
+        db = dict(b)
+        out = []
+        for d, av in a:
+            bv = db.get(d)
+            if bv is None:
+                continue
+            if av == bv:
+                out.append((d, av))
+            elif av[0] == bv[0]:
+                out.append((d, (av[0], PathFlow.meet(av[1], bv[1]))))
+            else:
+                ca, cb = PathFlow.collapse(av), PathFlow.collapse(bv)
+                out.append((d, (ca[0], PathFlow.meet(ca[1], cb[1])) if ca[0] == cb[0] else (("unknown", "differs between the paths that meet here"), frozenset())))
+        return tuple(out)
+
+    # ---- expressions
+    def term(self, f, st, n):
+        n = strip_views(n)
+        if n is None:
+            return ("unknown", "nothing")
+        k = n.get("k")
+        if k == "var":
+            av = self.sget(st, n.get("d"))
+            if av is not None:
+                return self.collapse(av)[0]
+            if n.get("parm") is not None:
+                return ("param", n["parm"])
+            vs = decl_vars(f).get(n.get("d"), [])
+            if len(vs) == 1 and isinstance(vs[0].get("init"), dict) and n.get("d") not in assigned_ds(f):
+                return self.term(f, st, vs[0]["init"])      # a single-assignment local of another type (std::string name(…))
+            return ("unknown", "variable %s" % n.get("n"))
+        if k == "member":
+            return ("field", n["n"])
+        if k == "str":
+            return ("str", n.get("v", ""))
+        if k == "ctor" and n.get("cls") == "std::filesystem::path":
+            a = xargs(n)
+            return ("new",) if not a else (self.term(f, st, a[0]) if len(a) == 1 else ("unknown", show(n)[:40]))
+        if k == "opcall" and n.get("op") == "/" and len(n["args"]) == 2:
+            return ("join", self.term(f, st, n["args"][0]), self.term(f, st, n["args"][1]))
+        if k == "call" and n.get("callee") in CANON and n["args"]:
+            return ("canon", self.term(f, st, n["args"][0]))
+        if k == "call" and n.get("callee") == "std::filesystem::absolute" and n["args"]:
+            return ("lex", "absolute", self.term(f, st, n["args"][0]))
+        if k == "mcall" and (n.get("callee") or "").startswith("std::filesystem::path::"):
+            m = last(n["callee"])
+            if m in ("parent_path", "filename"):
+                return ("parent" if m == "parent_path" else "filename", self.term(f, st, n.get("obj")))
+            if m == "lexically_normal":
+                return ("lex", m, self.term(f, st, n.get("obj")))
+            if m in ("string", "native", "c_str", "generic_string", "u8string") or m.startswith("operator "):
+                return self.term(f, st, n.get("obj"))
+        return ("unknown", show(n)[:40])
+
+    def value(self, f, st, n):
+        """(term, flags) of an expression of path type"""
+        n0 = strip_views(n)
+        if n0 is not None and n0.get("k") == "var":
+            av = self.sget(st, n0.get("d"))
+            if av is not None:
+                return self.collapse(av)
+        if n0 is not None and n0.get("k") == "call" and n0.get("callee") in CANON and n0["args"]:
+            ecs = [strip_casts(a)["d"] for a in n0["args"][1:] if strip_casts(a).get("k") == "var" and is_ec_type(strip_casts(a).get("t"))]
+            # without an error_code argument the call throws on failure: the value exists only if it succeeded
+            return ("canon", self.term(f, st, n0["args"][0])), frozenset([("ecpend", ecs[0])] if ecs else ["ecok"])
+        return self.term(f, st, n), frozenset()
+
+    # ---- transfer
+    def _kill_ec(self, st, ecd):
+        return tuple((d, (t, frozenset(x for x in fl if x != ("ecpend", ecd)))) for d, (t, fl) in st)
+
+    def _test_ec(self, st, ecd, understood):
+        out = []
+        for d, (t, fl) in st:
+            if ("ecpend", ecd) in fl:
+                fl = (fl - {("ecpend", ecd)}) | {"ecok" if understood else ("ecunk", ecd)}
+            out.append((d, (t, fl)))
+        return tuple(out)
+
+    def transfer(self, f, st, e):
+        if e.kind != "stmt" or e.node is None:
+            return st
+        n = e.node
+        k = n.get("k")
+        if k == "decl":
+            for v in n["vars"]:
+                if is_path_type(v.get("t")):
+                    av = self.value(f, st, v["init"]) if isinstance(v.get("init"), dict) else (("new",), frozenset())
+                    if v["t"].rstrip().endswith("&") and isinstance(v.get("init"), dict) and var_d(v["init"], views=False) is not None and self.sget(st, var_d(v["init"], views=False)) is not None \
+                            and strip_casts(v["init"]).get("parm") is None:
+                        av = (("unknown", "a reference to another local, whose later changes the rule does not track"), frozenset())
+                    st = self.sset(st, v["d"], av)
+            return st
+        if (k in ("bin", "opcall") and is_assign(n)) or (k == "opcall" and n.get("op") == "/=" and len(n.get("args", [])) == 2):
+            lhs, op, rhs = _ap(n) if k == "bin" else (n["args"][0], n["op"], n["args"][1])
+            l0 = strip_casts(lhs)
+            if l0 is not None and l0.get("k") == "var" and (is_path_type(l0.get("t")) or self.sget(st, l0.get("d")) is not None):
+                d = l0["d"]
+                cur = self.collapse(self.sget(st, d) or (("unknown", "unset"), frozenset()))
+                r0 = strip_views(rhs)
+                if op == "=":
+                    st = self.sset(st, d, self.value(f, st, rhs))
+                elif op == "+=" and r0 is not None and r0.get("k") == "str":
+                    st = self.sset(st, d, (("concat", cur[0], r0.get("v", "")), frozenset()))
+                elif op == "/=":
+                    st = self.sset(st, d, (("join", cur[0], self.term(f, st, rhs)), frozenset()))
+                else:
+                    st = self.sset(st, d, (("unknown", show(n)[:40]), frozenset()))
+            return st
+        if k in ("call", "mcall", "opcall", "ctor"):
+            args = n.get("args", [])
+            # an error_code handed to another call is overwritten: a result whose code was not tested by now never counts as tested
+            for a in args:
+                a0 = strip_casts(a)
+                if a0 is not None and a0.get("k") == "var" and is_ec_type(a0.get("t")):
+                    st = self._kill_ec(st, a0["d"])
+            if k == "mcall":
+                d = var_d(n.get("obj"), views=False)
+                if d is not None and self.sget(st, d) is not None and last(n.get("callee", "")) in PATH_MUTATORS:
+                    st = self.sset(st, d, (("unknown", "modified by %s()" % last(n["callee"])), frozenset()))
+            g = self.local_fn(n) if k in ("call", "mcall") else None
+            for i, a in enumerate(args):
+                d = var_d(a, views=False)
+                if d is None or self.sget(st, d) is None:
+                    continue
+                if g is not None:
+                    pt = g.params[i]["t"] if i < len(g.params) else ""
+                    if not (pt.rstrip().endswith("&") and not pt.lstrip().startswith("const ")):
+                        continue
+                    summ = self.summary(g)
+                    if summ is None:
+                        st = self.sset(st, d, (("unknown", "written by %s, which the rule cannot summarise" % last(g.name)), frozenset()))
+                        continue
+                    pre = self.collapse(self.sget(st, d))
+                    alts = []
+                    for (rk, infl, outs) in summ:
+                        t, fl = outs.get(i, (("param", i), frozenset()))
+                        alts.append((rk,) + (pre if t == ("param", i) else (self.subst(f, st, t, args), frozenset(self.subst_flag(f, st, x, args) for x in fl))))
+                    st = self.sset(st, d, (("sel", n["id"], tuple(alts)), frozenset()))
+                elif k in ("call", "mcall") and not (n.get("callee") or "").startswith("std::"):
+                    # a function the rule cannot read (no body in assets.hpp) gets the variable itself: it may have written it
+                    st = self.sset(st, d, (("unknown", "passed to %s" % last(n.get("callee") or "?")), frozenset()))
+            return st
+        return st
+
+    def subst(self, f, st, t, args):
+        """a callee's term in the caller's terms"""
+        if t[0] == "param":
+            return self.term(f, st, args[t[1]]) if t[1] < len(args) else ("unknown", "parameter %d" % t[1])
+        return tuple(self.subst(f, st, x, args) if isinstance(x, tuple) else x for x in t)
+
+    def subst_flag(self, f, st, fl, args):
+        return ("in", self.subst(f, st, fl[1], args)) if isinstance(fl, tuple) and fl[0] == "in" else fl
+
+    # ---- branch edges
+    def call_summary(self, call):
+        c = call.get("callee") or ""
+        if self.contain is not None and c == self.contain[0].name:
+            return [(1, {self.contain[2]: frozenset([("in", ("param", self.contain[1]))])}, {}), (0, {}, {})]
+        if c == "std::filesystem::is_regular_file":
+            return [(1, {0: frozenset(["regular"])}, {}), (0, {}, {})]
+        g = self.local_fn(call)
+        return self.summary(g) if g is not None else None
+
+    def apply_result(self, f, st, call, accept):
+        """the state on an edge where the result of `call` satisfies accept(value)"""
+        summ = self.call_summary(call)
+        if summ is None:
+            return st
+        compat = [r for r in summ if r[0] is None or accept(r[0])]
+        if not compat:
+            return st
+        args = call.get("args", [])
+        for i, a in enumerate(args):
+            d = var_d(a)
+            if d is None or self.sget(st, d) is None:
+                continue
+            fls = frozenset.intersection(*[r[1].get(i, frozenset()) for r in compat])
+            if fls:
+                t, cur = self.sget(st, d)
+                add = frozenset(self.subst_flag(f, st, x, args) for x in fls)
+                if t[0] == "sel":       # still one of several alternatives a helper left: whichever it is, it has passed this test
+                    st = self.sset(st, d, (("sel", t[1], tuple((a[0], a[1], a[2] | add) for a in t[2])), cur))
+                    continue
+                st = self.sset(st, d, (t, cur | add))
+        out = []
+        for d, (t, fl) in st:
+            if t[0] == "sel" and t[1] == call.get("id"):
+                alts = tuple(a for a in t[2] if a[0] is None or accept(a[0]))
+                if alts and all(a[1:] == alts[0][1:] for a in alts):
+                    out.append((d, (alts[0][1], alts[0][2])))
+                    continue
+                out.append((d, (("sel", t[1], alts or t[2]), fl)))
+            else:
+                out.append((d, (t, fl)))
+        return tuple(out)
+
+    def apply_cond(self, f, st, c, truth):
+        for leaf, t in flatten_fact(unname(f, c), truth):
+            leaf = strip_casts(leaf)
+            if leaf is None:
+                continue
+            # the error code of a resolving call: `if (ec)`, `ec.value() != 0`
+            ecs = {x["d"] for x in walk(leaf) if x.get("k") == "var" and is_ec_type(x.get("t"))}
+            if ecs and not any(x.get("k") in ("call", "mcall") and not (x.get("callee") or "").startswith("std::error_code::") for x in walk(leaf)):
+                clear = None
+                if leaf.get("k") == "var" or (leaf.get("k") == "mcall" and last(leaf.get("callee", "")) == "operator bool"):
+                    clear = t is False
+                else:
+                    cp = common.cmp_oriented(leaf, lambda x: const_value(x) == 0)
+                    if cp and cp[0] in ("==", "!=") and strip_casts(cp[1]).get("k") == "mcall" and last(strip_casts(cp[1]).get("callee", "")) == "value":
+                        clear = (cp[0] == "==") == t
+                for d in ecs:
+                    if clear is None:
+                        st = self._test_ec(st, d, False)
+                    elif clear:
+                        st = self._test_ec(st, d, True)
+                continue
+            if leaf.get("k") in ("call", "mcall"):
+                st = self.apply_result(f, st, leaf, lambda rk, t=t: bool(rk) == t)
+                continue
+            cp = common.cmp_parts(leaf)
+            if cp and cp[0] in ("==", "!="):
+                for a, b in ((cp[1], cp[2]), (cp[2], cp[1])):
+                    a0 = strip_casts(a)
+                    if a0 is not None and a0.get("k") in ("call", "mcall") and const_value(b) is not None:
+                        K = const_value(b)
+                        st = self.apply_result(f, st, a0, lambda rk, K=K, eq=(cp[0] == "==") == t: (rk == K) == eq)
+                        break
+        return st
+
+    def edge(self, f, st, b, si):
+        c = b.cond
+        if c is None:
+            return st
+        lab = b.edge_label(si)
+        if lab is True or lab is False:
+            return self.apply_cond(f, st, c, lab)
+        c0 = strip_casts(unname(f, c))
+        if c0 is not None and c0.get("k") in ("call", "mcall"):
+            ks = [const_value(f.blocks[s].label["v"]) for s in b.succs if s is not None and f.blocks[s].label and f.blocks[s].label.get("k") == "case" and f.blocks[s].label.get("v")]
+            if isinstance(lab, tuple) and lab[0] == "case" and const_value(lab[1]) is not None:
+                return self.apply_result(f, st, c0, lambda rk, K=const_value(lab[1]): rk == K)
+            if lab == "default":
+                return self.apply_result(f, st, c0, lambda rk: rk not in ks)
+        return st
+
+    # ---- per function
+    def flow(self, f):
+        if f.sig not in self._flow:
+            init = tuple(sorted(((p["d"], (("param", i), frozenset())) for i, p in enumerate(f.params) if is_path_type(p.get("t")) and p.get("d") is not None), key=lambda kv: kv[0]))
+            self._flow[f.sig] = Forward(f, init, lambda st, e: self.transfer(f, st, e), self.join, edge=lambda st, b, si: self.edge(f, st, b, si), eh=False)
+        return self._flow[f.sig]
+
+    def summary(self, g):
+        """[(returned constant | None, {index of a path parameter: flags its value has gained}, {index of a path out-parameter: (term, flags)})]
+        one entry per way of returning; None when g cannot be summarised (recursion, too deep)"""
+        if g.sig in self._sum:
+            return self._sum[g.sig]
+        if g.sig in self._active or len(self._active) > 3:
+            return None
+        self._active.add(g.sig)
+        try:
+            fl = self.flow(g)
+            rets = []
+            for e in g.stmts():
+                if e.node.get("k") != "ret" or "root" not in e.raw:
+                    continue
+                st = fl.before(e)
+                if st is None:
+                    continue
+                v = e.node.get("v")
+                cv = const_value(strip_casts(v)) if isinstance(v, dict) else None
+                if cv is not None:
+                    variants = [(cv, st)]
+                elif isinstance(v, dict) and g.raw.get("ret") == "bool":
+                    # `return isContained(b, p) && is_regular_file(p);` — returning true means the expression held
+                    variants = [(1, self.apply_cond(g, st, v, True)), (0, self.apply_cond(g, st, v, False))]
+                else:
+                    variants = [(None, st)]
+                for rk, s in variants:
+                    infl, outs = {}, {}
+                    for i, p in enumerate(g.params):
+                        av = self.sget(s, p.get("d"))
+                        if av is None:
+                            continue
+                        t, fs = self.collapse(av)
+                        fs = frozenset(x for x in fs if x in ("ecok", "regular") or (isinstance(x, tuple) and x[0] == "in"))
+                        pt = p.get("t") or ""
+                        if pt.rstrip().endswith("&") and not pt.lstrip().startswith("const "):
+                            outs[i] = (t, fs)
+                        elif t == ("param", i):
+                            infl[i] = fs
+                    rets.append((rk, infl, outs))
+            if g.raw.get("ret") == "void" and fl.block_in.get(g.exit) is not None:
+                # falling off the end (and every explicit `return;`) of a void helper: what holds on all ways out
+                s = fl.block_in[g.exit]
+                outs = {i: self.collapse(self.sget(s, p.get("d"))) for i, p in enumerate(g.params) if self.sget(s, p.get("d")) is not None and (p.get("t") or "").rstrip().endswith("&") and not (p.get("t") or "").lstrip().startswith("const ")}
+                rets = [(None, {}, {i: (t, frozenset(x for x in fs if x in ("ecok", "regular") or (isinstance(x, tuple) and x[0] == "in"))) for i, (t, fs) in outs.items()})]
+            self._sum[g.sig] = rets or None
+        finally:
+            self._active.discard(g.sig)
+        return self._sum[g.sig]
+
+    # ---- readers: functions that hand one of their own path parameters, unchanged, to the file-opening primitive (directly or through another reader)
+    def readers(self, seed):
+        """seed: {Function: {parameter index}} (readFile).  Returns (readers, sites): readers = {sig: (Function, {param index})};
+        sites = [(F, elem, G, argument node, (term, flags), state, note)] for every call in assets.hpp that passes a path to a reader G"""
+        rd = {g.sig: (g, set(ix)) for g, ix in seed.items()}
+        for _ in range(8):
+            changed = False
+            sites = []
+            for F in self.fb.in_file(AF):
+                if not F.ok:
+                    continue
+                for e in F.stmts():
+                    n = e.node
+                    if n.get("k") not in ("call", "mcall"):
+                        continue
+                    g = self.local_fn(n)
+                    if g is None or g.sig not in rd:
+                        continue
+                    st = self.flow(F).before(e)
+                    if st is None:
+                        continue
+                    for j in sorted(rd[g.sig][1]):
+                        if j >= len(n["args"]):
+                            raise AnalysisBroken("%s calls %s without its path argument" % (short(F.name), short(g.name)))
+                        av = self.value(F, st, n["args"][j])
+                        # a value a helper wrote, with the helper's result not tested on the way here: it is whichever of the alternatives;
+                        # the site is judged on the first alternative that has not passed every check
+                        raw = self.sget(st, var_d(n["args"][j])) if var_d(n["args"][j]) is not None else None
+                        note = ""
+                        if raw is not None and raw[0][0] == "sel" and av[0][0] == "unknown":
+                            worst = [a for a in raw[0][2] if not sanitised((a[1], a[2]))] or list(raw[0][2])
+                            av = (worst[0][1], worst[0][2])
+                            hc = [x for x in F.nodes.values() if x.get("id") == raw[0][1]]
+                            note = " (the value left by %s when it returns %s — a result the caller does not exclude before the read)" % (last(hc[0].get("callee", "")) if hc else "a helper", worst[0][0])
+                        sites.append((F, e, g, n["args"][j], av, st, note))
+                        if av[0][0] == "param" and is_path_type(F.params[av[0][1]].get("t")):
+                            ent = rd.setdefault(F.sig, (F, set()))
+                            if av[0][1] not in ent[1]:
+                                ent[1].add(av[0][1])
+                                changed = True
+            if not changed:
+                return rd, sites
+        raise AnalysisBroken("the set of functions that forward a path to readFile does not stabilise")
+
+
+def analysis(ctx):
+    """one PathFlow per fact base (configuration), with the containment primitive read from isContained (R4)"""
+    fb = ctx.fb()
+    cache = ctx.__dict__.setdefault("_c20_pf", {})
+    if id(fb) not in cache:
+        pf = PathFlow(fb)
+        ic = af(ctx, "isContained")
+        roles = contained_roles(ic)
+        # when isContained is not built on lexically_relative R4 reports it; the flow rules then go by the declared order (base, target)
+        pf.contain = (ic, roles[0], roles[1]) if roles else (ic, 0, 1)
+        rf = opener(ctx)
+        pi = reader_param(rf)
+        if pi is None:
+            raise AnalysisBroken("%s: the path handed to ::open is not one of its parameters" % last(rf.name))
+        pf.rd, pf.sites = pf.readers({rf: {pi}})
+        cache[id(fb)] = pf
+    return cache[id(fb)]
+
+
+def is_open(n):
+    return n.get("k") == "call" and n.get("callee") in ("open", "::open", "open64", "openat")
+
+
+def opener(ctx):
+    """the one function of assets.hpp that opens files (readFile; if the ::open moves into a helper of its own, that helper): the seed of the
+    reader set.  Every other primitive that opens or reads a file is R1's business."""
+    fs = [f for f in ctx.fb().in_file(AF) if f.ok and any(is_open(e.node) for e in f.stmts())]
+    named = [f for f in fs if last(f.name) == "readFile"]
+    if named:
+        return named[0]
+    if len(fs) != 1:
+        raise AnalysisBroken("assets.hpp: %d functions call ::open and none of them is readFile" % len(fs))
+    return fs[0]
+
+
+def reader_param(rf):
+    """index of the parameter whose c_str() readFile opens"""
+    for e in rf.stmts():
+        if is_open(e.node) and e.node["args"]:
+            a = strip_casts(e.node["args"][0])
+            if a.get("k") == "mcall" and last(a.get("callee", "")) in ("c_str", "native"):
+                o = strip_casts(a.get("obj") or {})
+                if o.get("k") == "var" and o.get("parm") is not None:
+                    return o["parm"]
+    return None
+
+
+def contained_roles(ic):
+    """(base index, target index): isContained computes TARGET.lexically_relative(BASE) on two of its parameters"""
+    for n in ic.nodes.values():
+        if n.get("k") == "mcall" and last(n.get("callee", "")) == "lexically_relative" and n.get("args"):
+            o, a = strip_casts(n.get("obj") or {}), strip_views(n["args"][0]) or {}
+            if o.get("k") == "var" and a.get("k") == "var" and o.get("parm") is not None and a.get("parm") is not None and o["parm"] != a["parm"]:
+                return a["parm"], o["parm"]
+    return None
+
+
+def local_name(f, d):
+    for p in f.params:
+        if p.get("d") == d:
+            return p["n"]
+    vs = decl_vars(f).get(d)
+    return vs[0]["n"] if vs else "?"
+
+
+def definition_text(f, d):
+    """source rendering of what the variable is computed from (declaration initialiser, or its single assignment)"""
+    vs = decl_vars(f).get(d, [])
+    if len(vs) == 1 and isinstance(vs[0].get("init"), dict) and not (strip_views(vs[0]["init"]) or {}).get("k") == "ctor":
+        return show(strip_views(vs[0]["init"]))[:90]
+    ws = [asg(n) for n in f.nodes.values() if asg(n) and var_d(asg(n)[0], views=False) == d]
+    return show(strip_views(ws[0][1]))[:90] if len(ws) == 1 else None
+
+
+# ------------------------------------------------------------------ R1
+
 def r1(ctx, r):
     fb = ctx.fb()
     n = 0
-    rf = af(ctx, "readFile")
+    rf = opener(ctx)
+    rn = last(rf.name)
+    pf = analysis(ctx)
     for f in fb.in_file(AF):
         if not f.ok:
             continue
@@ -53,200 +729,504 @@ def r1(ctx, r):
             if not is_prim:
                 continue
             r.instance()
-            inside = f is rf or (f.enclosing is rf if hasattr(f, "enclosing") else False)
-            r.expect(inside, f, e, "file reader outside readFile: %s" % last(c), "%s opens/reads a file with %s outside Assets::readFile: the read is not covered by the O_NOFOLLOW leaf protection and the containment flow of the lookup sites"
-                     % (short(f.name), c), okdesc="%s inside readFile" % last(c))
+            host = f.enclosing if getattr(f, "enclosing", None) is not None else f
+            # primitives that take a PATH belong in the one opener; those that take a DESCRIPTOR (read, pread, mmap) in a function of the reader
+            # set (the opener, or whoever forwards its path to it and reads what came back)
+            inside = host is rf or (nn.get("k") == "call" and last(c) in FD_PRIMS and host.sig in pf.rd)
+            r.expect(inside, f, e, "file reader outside %s: %s" % (rn, last(c)), "%s opens/reads a file with %s outside Assets::%s: the read is not covered by the O_NOFOLLOW leaf protection and the containment flow of the lookup sites"
+                     % (short(f.name), c, rn), okdesc="%s inside %s" % (last(c), last(host.name)))
     if n < 20:
         raise AnalysisBroken("only %d functions of assets.hpp analysed (floor 20)" % n)
-    op = [e for e in rf.stmts() if e.node.get("k") == "call" and last(e.node.get("callee", "")) == "open"]
+    op = [e for e in rf.stmts() if is_open(e.node)]
     r.instance()
-    if r.expect(len(op) == 1, rf, None, "readFile open", "readFile does not open the file with exactly one ::open call (found %d)" % len(op)):
+    if r.expect(len(op) == 1, rf, None, "%s open" % rn, "%s does not open the file with exactly one ::open call (found %d)" % (rn, len(op))):
         flags = const_value(strip_casts(op[0].node["args"][1])) if len(op[0].node["args"]) > 1 else None
         r.instance()
-        r.expect(flags is not None and flags & O_NOFOLLOW and flags & O_CLOEXEC and (flags & O_ACCMODE) == 0, rf, op[0], "open flags", "readFile opens the leaf with flags %s: without O_NOFOLLOW a file swapped for a symbolic link after the containment "
-                 "check (or a .gz sibling that is a link) is followed to a location outside the root" % (oct(flags) if flags is not None else "that are not constant"), okdesc="open(O_RDONLY|O_NOFOLLOW|O_CLOEXEC)")
+        r.expect(flags is not None and flags & O_NOFOLLOW and flags & O_CLOEXEC and (flags & O_ACCMODE) == 0, rf, op[0], "open flags", "%s opens the leaf with flags %s: without O_NOFOLLOW a file swapped for a symbolic link after the containment "
+                 "check (or a .gz sibling that is a link) is followed to a location outside the root" % (rn, oct(flags) if flags is not None else "that are not constant"), okdesc="open(O_RDONLY|O_NOFOLLOW|O_CLOEXEC)")
         r.instance()
-        r.expect(show(strip_casts(op[0].node["args"][0])) == "p.c_str()", rf, op[0], "open path", "readFile opens something other than its argument", okdesc="open(p.c_str(), …)")
-    # who calls readFile / buildEntry
-    callers = {"readFile": set(), "buildEntry": set()}
-    for f in fb.in_file(AF):
-        if not f.ok:
+        # what is opened is the function's own path parameter (whatever it is called), never written inside the function
+        pi = reader_param(rf)
+        r.expect(pi is not None and rf.params[pi].get("d") not in assigned_ds(rf), rf, op[0], "open path", "%s opens something other than its argument" % rn, okdesc="open(<path parameter>.c_str(), …)")
+    # who can hand a path to the reader: computed, not listed.  A function that passes its OWN path parameter on to a reader is itself a reader
+    # (buildEntry; a new readFresh(resolved, …) helper); every other call site computes the path locally and is judged by R3 / R7.  For the
+    # set to be closed nothing outside the class may call a reader: each one must be private.
+    for sig, (g, ix) in sorted(pf.rd.items()):
+        r.instance()
+        callers = sorted({last(F.name) for (F, e, g2, a, av, st, note) in pf.sites if g2 is g})
+        r.expect(g.access == "private", g, None, "reader reachable from outside: %s" % last(g.name), "%s hands its path parameter `%s` to the file reader and is not private: a caller outside Assets can have any path opened, with none of the lookup sites' checks"
+                 % (short(g.name), ", ".join(g.params[i]["n"] for i in sorted(ix))), okdesc="%s(%s) private, called from %s" % (last(g.name), ", ".join(g.params[i]["n"] for i in sorted(ix)), ", ".join(callers) or "nowhere"))
+    # … and nobody takes a reader's address (a call through a pointer would not be seen as a call site)
+    names = {g.name for g, ix in pf.rd.values()}
+    taken = [(f, x) for f in fb.in_file(AF) if f.ok for x in f.nodes.values() if x.get("k") in ("fref", "gref") and x.get("n") in names and not
+             (f.parent.get(x.get("id")) is not None and f.nodes[f.parent[x["id"]]].get("k") in ("call", "mcall"))]
+    r.instance()
+    r.expect(not taken, taken[0][0] if taken else rf, taken[0][1] if taken else None, "reader address taken", "the address of a file-reading function is taken in %s: calls through it are invisible to the call-site rules" % (short(taken[0][0].name) if taken else ""),
+             okdesc="readers are only ever called directly")
+
+
+# ------------------------------------------------------------------ R2
+
+def reject_leaves(pf, f, pd, depth=0):
+    """[(function, leaf node, truth, declaration id of the request string in that function)]: evaluating `leaf` to `truth` makes the gate
+    return true.  Conditions are read wherever they are written: as a branch whose edge goes straight to `return true`, as (a disjunct of)
+    a returned expression, through named const bools, and inside a helper of the class whose result is returned."""
+    out = []
+
+    def returns_true_at_once(bid):
+        # straight-line code (a log line, a counter) may stand between the test and the `return true`; another branch may not
+        for _ in range(6):
+            b = f.blocks[bid]
+            rets = [e for e in b.elems if e.kind == "stmt" and "root" in e.raw and e.node.get("k") == "ret"]
+            if rets:
+                return const_value(strip_casts(rets[0].node.get("v") or {})) == 1
+            nxt = [x for x in b.succs if x is not None]
+            if b.cond is not None or len(nxt) != 1:
+                return False
+            bid = nxt[0]
+        return False
+
+    def leaf(c, t):
+        c0 = strip_casts(c)
+        g = pf.local_fn(c0) if c0.get("k") in ("call", "mcall") else None
+        if g is not None and t is True and depth < 2:
+            for i, a in enumerate(c0.get("args", [])):
+                if var_d(a) == pd and i < len(g.params):
+                    out.extend(reject_leaves(pf, g, g.params[i]["d"], depth + 1))
+                    return
+        out.append((f, c0, t, pd))
+    for b in f.blocks.values():
+        c, st, sf = common.branch(b)
+        if c is None or st is None or sf is None or st == sf:
             continue
-        for e in f.stmts():
-            if e.node.get("k") in ("call", "mcall") and last(e.node.get("callee", "")) in callers and e.node.get("callee", "").startswith(AS):
-                callers[last(e.node["callee"])].add(last(f.name))
-    r.instance()
-    r.expect(callers["readFile"] == {"buildEntry", "getTemplateFilesystem"}, rf, None, "readFile callers", "readFile is called from %s (closed set: buildEntry, getTemplateFilesystem)" % sorted(callers["readFile"]), okdesc="readFile ← buildEntry, getTemplateFilesystem")
-    r.instance()
-    r.expect(callers["buildEntry"] == {"getStaticFilesystem", "getStaticEmbedded"}, rf, None, "buildEntry callers", "buildEntry is called from %s (closed set: getStaticFilesystem, getStaticEmbedded)" % sorted(callers["buildEntry"]),
-             okdesc="buildEntry ← getStaticFilesystem, getStaticEmbedded")
+        for succ, truth in ((st, True), (sf, False)):
+            if returns_true_at_once(succ):
+                for c1, t1 in sufficient(unname(f, c), truth):
+                    leaf(c1, t1)
+    for e in f.stmts():
+        if e.node.get("k") == "ret" and "root" in e.raw and isinstance(e.node.get("v"), dict) and const_value(strip_casts(e.node["v"])) is None:
+            for c1, t1 in sufficient(unname(f, e.node["v"]), True):
+                leaf(c1, t1)
+    return out
+
+
+def _cmp_true(c, t):
+    """(op, lhs, rhs) of a comparison leaf, with the operator negated when the leaf has to be false"""
+    cp = common.cmp_parts(c)
+    if not cp:
+        return None
+    op = cp[0] if t else {"==": "!=", "!=": "==", "<": ">=", ">=": "<", ">": "<=", "<=": ">"}[cp[0]]
+    return op, cp[1], cp[2]
+
+
+def _on_request(n, pd, methods):
+    n = strip_views(n)
+    return n is not None and n.get("k") == "mcall" and last(n.get("callee", "")) in methods and var_d(n.get("obj")) == pd
+
+
+def _substr_forms(g, n, pd):
+    """argument lists of the substr() calls on the request string that produce the compared segment (directly, or through the single-assignment
+    local the segment was stored in)"""
+    n = strip_views(n)
+    if n is None:
+        return []
+    if n.get("k") == "var":
+        vs = decl_vars(g).get(n.get("d"), [])
+        if len(vs) != 1 or not isinstance(vs[0].get("init"), dict) or n.get("d") in assigned_ds(g):
+            return []
+        n = vs[0]["init"]
+    return [xargs(x) for x in walk(n) if _on_request(x, pd, ("substr",))]
 
 
 def r2(ctx, r):
+    pf = analysis(ctx)
+    lx = af(ctx, "lexicallyRejected")
     for nm in ("getStatic", "getTemplate"):
         f = af(ctx, nm)
-        gate = [b for b in f.blocks.values() if b.cond is not None and strip_casts(b.cond).get("k") in ("call", "mcall") and last(strip_casts(b.cond).get("callee", "")) == "lexicallyRejected"]
-        others = [e for e in f.stmts() if e.node.get("k") in ("call", "mcall") and last(e.node.get("callee", "")) in ("getStaticEmbedded", "getStaticFilesystem", "getTemplateFilesystem", "findTemplate", "findStatic")]
+        req = f.params[0]["d"] if f.params else None
+        gate = []
+        for b in f.blocks.values():
+            c, st, sf = common.branch(b)
+            if c is not None and c.get("k") in ("call", "mcall") and c.get("callee") == lx.name and c.get("args") and var_d(c["args"][0]) == req:
+                gate.append((b, st, sf))
+        # everything else of the class that receives the request
+        others = [e for e in f.stmts() if e.node.get("k") in ("call", "mcall") and (e.node.get("callee") or "").startswith(AS + "::") and e.node.get("callee") != lx.name and any(var_d(a) == req for a in e.node.get("args", []))]
         r.instance()
-        ok = len(gate) == 1 and len(others) >= 2 and all(dominated_by_edge(f, e, gate[0], 1, eh=False) for e in others) and key_of(strip_views(strip_casts(gate[0].cond)["args"][0])) == f.params[0]["n"]
+        ok = len(gate) == 1 and len(others) >= 2 and gate[0][1] != gate[0][2] and all(dominated_by_edge(f, e, gate[0][0], gate[0][0].succs.index(gate[0][2]), eh=False) for e in others)
         if ok:
-            ok = any(x.kind == "stmt" and x.node.get("k") == "ret" for x in f.blocks[gate[0].succs[0]].elems)
+            ok = any(x.kind == "stmt" and x.node.get("k") == "ret" for x in f.blocks[gate[0][1]].elems)
         r.expect(ok, f, None, "lexical gate: %s" % nm, "%s reaches a lookup without lexicallyRejected(%s) having returned false" % (nm, f.params[0]["n"] if f.params else "name"), okdesc="%s: lexicallyRejected first, true edge returns" % nm)
-    lx = af(ctx, "lexicallyRejected")
-    conds = [show(strip_casts(b.cond)) for b in lx.blocks.values() if b.cond is not None]
-    need = {"leading '/'": lambda c: "front()" in c and "'/'" in c and "==" in c, "NUL byte": lambda c: "find('\\x00')" in c and "npos" in c and "!=" in c, "backslash": lambda c: "find('\\\\')" in c and "npos" in c and "!=" in c,
-            "'..' segment": lambda c: "seg" in c and '".."' in c and "==" in c}
-    for k, pred in need.items():
+    leaves = reject_leaves(pf, lx, lx.params[0]["d"]) if lx.params else []
+    conds = sorted({("" if t else "!") + "(" + show(c)[:60] + ")" for (g, c, t, pd) in leaves})
+
+    def is_char(n, v):
+        n = strip_casts(n)
+        return n is not None and n.get("k") in ("char", "int") and n.get("cv") == v
+
+    def first_char(g, c, t, pd):
+        cp = _cmp_true(c, t)
+        if not cp or cp[0] != "==":
+            return False
+        for a, b in ((cp[1], cp[2]), (cp[2], cp[1])):
+            a0 = strip_views(a)
+            if is_char(b, 47) and (_on_request(a0, pd, ("front",)) or (a0 is not None and a0.get("k") == "opcall" and a0.get("op") == "[]" and var_d(a0["args"][0]) == pd and const_value(a0["args"][1]) == 0)):
+                return True
+        return False
+
+    def contains_char(v):
+        def pred(g, c, t, pd):
+            cp = _cmp_true(c, t)
+            if not cp or cp[0] != "!=":
+                return False
+            for a, b in ((cp[1], cp[2]), (cp[2], cp[1])):
+                a0, b0 = strip_views(a), strip_casts(b)
+                if _on_request(a0, pd, ("find",)) and len(xargs(a0)) == 1 and is_char(xargs(a0)[0], v) and b0 is not None and b0.get("k") == "gvar" and last(b0.get("n", "")) == "npos":
+                    return True
+            return False
+        return pred
+
+    def dotdot(g, c, t, pd):
+        cp = _cmp_true(c, t)
+        if not cp or cp[0] != "==":
+            return False
+        for a, b in ((cp[1], cp[2]), (cp[2], cp[1])):
+            lits = [x.get("v") for x in walk(b) if x.get("k") == "str"]
+            if lits == [".."] and _substr_forms(g, a, pd):
+                return True
+        return False
+    need = [("leading '/'", first_char), ("NUL byte", contains_char(0)), ("backslash", contains_char(92)), ("'..' segment", dotdot)]
+    # a verdict the rule cannot read — a returned variable that is assigned along the way (`bad = true; … return bad;`), a helper that is not
+    # handed the request itself — may hold any of the rejections: a rejection that is not found elsewhere is then a refusal, not a report
+    opaque = sorted({show(c)[:40] for (g, c, t, pd) in leaves if c.get("k") == "var" or (c.get("k") in ("call", "mcall") and pf.local_fn(c) is not None)})
+    hits = {}
+    for k, pred in need:
         r.instance()
-        b = [x for x in lx.blocks.values() if x.cond is not None and pred(show(strip_casts(x.cond)))]
-        ok = len(b) == 1 and any(e.kind == "stmt" and e.node.get("k") == "ret" and const_value(strip_casts(e.node.get("v") or {})) == 1 for e in lx.blocks[b[0].succs[0]].elems)
-        r.expect(ok, lx, None, "lexical rejection: %s" % k, "lexicallyRejected does not reject a %s (conditions: %s)" % (k, conds), okdesc="rejects %s" % k)
-    # segments are split on '/'
-    sp = [e for e in lx.stmts() if e.node.get("k") == "mcall" and last(e.node.get("callee", "")) == "find" and "'/'" in show(e.node) and "start" in show(e.node)]
-    adv = [e for e in lx.stmts() if asg(e.node) and key_of(asg(e.node)[0]) == "start" and "slash + 1" in show(asg(e.node)[1])]
+        hits[k] = [(g, c, t, pd) for (g, c, t, pd) in leaves if pred(g, c, t, pd)]
+        if not hits[k] and opaque:
+            raise AnalysisBroken("lexicallyRejected: no rejection of a %s found, and part of its verdict is computed in a way the rule cannot follow (%s)" % (k, ", ".join(opaque)))
+        r.expect(len(hits[k]) >= 1, lx, None, "lexical rejection: %s" % k, "lexicallyRejected does not reject a %s (conditions that make it return true: %s)" % (k, conds), okdesc="rejects %s" % k)
+    # the '..' test is applied to every '/'-separated segment: one cursor starts at 0, the next separator is searched from the cursor, the cursor
+    # moves one past it (and round again), and both the segments that end at a separator and the last one are compared
     r.instance()
-    r.expect(len(sp) == 1 and len(adv) == 1, lx, None, "segment split", "the '..' test is not applied to every '/'-separated segment", okdesc="every '/'-separated segment tested")
+    ok = bool(hits["'..' segment"])
+    if ok:
+        g, _, _, pd = hits["'..' segment"][0]
+        # the roles (cursor, position of the separator) are identified from the one search for '/' that starts at a variable; a scan written
+        # some other way is not one this clause can judge
+        finds = [e for e in g.stmts() if _on_request(e.node, pd, ("find",)) and len(xargs(e.node)) == 2 and const_value(xargs(e.node)[0]) == 47 and var_d(xargs(e.node)[1], views=False) is not None]
+        cur = var_d(xargs(finds[0].node)[1], views=False) if len(finds) == 1 else None
+        pos = [d for d, vs in decl_vars(g).items() for v in vs if isinstance(v.get("init"), dict) and strip_casts(v["init"]).get("id") == finds[0].node.get("id")] + \
+              [var_d(asg(n)[0], views=False) for n in g.nodes.values() if asg(n) and strip_casts(asg(n)[1]).get("id") == finds[0].node.get("id")] if len(finds) == 1 else []
+        adv = [e for e in g.stmts() if asg(e.node) and var_d(asg(e.node)[0], views=False) == cur] if cur is not None else []
+        if len({g2.sig for (g2, c, t, pd2) in hits["'..' segment"]}) != 1 or len(finds) != 1 or len(pos) != 1 or pos[0] is None or len(adv) != 1:
+            raise AnalysisBroken("%s: the scan for '..' segments has a shape the rule cannot read (searches for '/' from a cursor: %d, cursor updates: %d)" % (last(g.name), len(finds), len(adv)))
+        cinit = decl_vars(g).get(cur, [])
+        ok = len(cinit) == 1 and const_value(cinit[0].get("init")) == 0
+    if ok:
+        def is_next(n):
+            n = strip_casts(n)
+            return n is not None and n.get("k") == "bin" and n.get("op") == "+" and {(var_d(n["lhs"], views=False), const_value(n["rhs"])), (var_d(n["rhs"], views=False), const_value(n["lhs"]))} & {(pos[0], 1)}
+        ok = bool(is_next(asg(adv[0].node)[1])) and search(g, adv[0], lambda x: x is finds[0], eh=False) is not None
+    if ok:
+        forms = set()
+        for (g2, c, t, pd2) in hits["'..' segment"]:
+            cp = common.cmp_parts(c)
+            for side in (cp[1], cp[2]):
+                for a in _substr_forms(g2, side, pd2):
+                    if len(a) == 1 and var_d(a[0], views=False) == cur:
+                        forms.add("last")
+                    elif len(a) == 2 and var_d(a[0], views=False) == cur:
+                        ln = strip_casts(a[1])
+                        if ln.get("k") == "bin" and ln.get("op") == "-" and var_d(ln["lhs"], views=False) == pos[0] and var_d(ln["rhs"], views=False) == cur:
+                            forms.add("inner")
+        ok = forms == {"last", "inner"}
+    r.expect(ok, lx, None, "segment split", "the '..' test is not applied to every '/'-separated segment", okdesc="every '/'-separated segment tested")
 
 
-def site_flow(r, f, reader_names, label, base_ok):
-    """the sanitiser flow at one lookup site"""
-    reads = [e for e in f.stmts() if e.node.get("k") in ("call", "mcall") and last(e.node.get("callee", "")) in reader_names and e.node.get("callee", "").startswith(AS)]
-    if not reads:
-        raise AnalysisBroken("%s: no read found" % label)
-    for e in reads:
-        arg = strip_views(e.node["args"][0])
+# ------------------------------------------------------------------ R3
+
+SITE_LABEL = {"getStaticEmbedded": "getStaticEmbedded(external)"}
+# the containment base each lookup has to use: the root stored (canonical) at construction, or the external directory canonicalised on the spot
+SITE_BASE = {"getStaticFilesystem": (("field", AS + "::FsState::staticsRoot"),), "getTemplateFilesystem": (("field", AS + "::FsState::templatesRoot"),),
+             "getStaticEmbedded": (("canon", ("field", "iora::web::EmbeddedAssetRegistry::externalDir")),)}
+
+
+def forwarded(pf, F, t):
+    """the path handed to a reader is one of F's own path parameters that make F a reader, or the constant-suffix sibling of one"""
+    ix = pf.rd[F.sig][1] if F.sig in pf.rd else set()
+    return (t[0] == "param" and t[1] in ix) or (t[0] == "concat" and t[1][0] == "param" and t[1][1] in ix)
+
+
+def sanitised(av, bases=None):
+    t, fl = av
+    return t[0] == "canon" and "ecok" in fl and "regular" in fl and any(isinstance(x, tuple) and x[0] == "in" and (bases is None or x[1] in bases) for x in fl)
+
+
+def site_flow(r, pf, F, e, g, arg, av, st, note=""):
+    """the sanitiser flow at one call that hands a locally computed path to the reader g"""
+    nm = last(F.name)
+    label = SITE_LABEL.get(nm, nm)
+    t, fl = av
+    d = var_d(arg)
+    v = local_name(F, d) if d is not None else show(strip_views(arg))[:40]
+    # every step of the derivation is an operation the rule knows; otherwise it can neither accept nor report the site
+    if has_unknown(t) and not sanitised(av):
+        raise AnalysisBroken("%s: the path `%s` handed to %s is computed in a way the rule cannot follow (%s)" % (label, v, last(g.name), render(t, F)))
+    r.instance()
+    ok = t[0] == "canon"
+    r.expect(ok, F, e, "%s: unresolved path read" % label, "%s reads `%s` (= %s), which is not the unmodified result of weakly_canonical(candidate, ec): symbolic links in the request are not resolved before the containment check "
+             "applies to what is opened" % (label, v, render(t, F)), okdesc="%s: %s(%s), %s = weakly_canonical(candidate, ec)" % (label, last(g.name), v, v))
+    if not ok:
+        return
+    # ec tested
+    r.instance()
+    if not ("ecok" in fl) and any(isinstance(x, tuple) and x[0] == "ecunk" for x in fl):
+        raise AnalysisBroken("%s: the error code of weakly_canonical is tested in a form the rule cannot read" % label)
+    r.expect("ecok" in fl, F, e, "%s: error code ignored" % label, "%s reads without having tested the error code of weakly_canonical" % label, okdesc="%s: ec tested" % label)
+    # containment of the SAME value
+    bases = [x[1] for x in fl if isinstance(x, tuple) and x[0] == "in"]
+    r.instance()
+    if not bases:
+        others = [(d2, pf.collapse(av2)) for d2, av2 in st if d2 != d and any(isinstance(x, tuple) and x[0] == "in" for x in pf.collapse(av2)[1])]
+        if not others:
+            why = "no isContained(…) has returned true for any path on the way here"
+        else:
+            d2, (t2, fl2) = others[0]
+            w = local_name(F, d2)
+            why = "the containment check is applied to `%s`, not to the resolved path `%s` that is opened" % (w, v)
+            if subterm(t2, t) and t2 != t:
+                dv, dw = definition_text(F, d), definition_text(F, d2)
+                why += ": `%s`%s is computed FROM `%s`%s after that check, by a further resolution whose result is never tested" % (v, " = " + dv if dv else "", w, " = " + dw if dw else "")
+                if mentions(t2, "parent"):
+                    why += " (only the parent directory is canonicalised and checked; the final component is resolved afterwards, so a leaf that is a symbolic link to a file outside the root is followed)"
+        r.fail(F, e, "%s: containment bypass" % label, "%s reads `%s`%s although %s: a request naming a symbolic link that leads outside the root is served" % (label, v, note, why))
+    else:
+        r.ok("%s: isContained(base, %s) before the read" % (label, v))
+        want = SITE_BASE.get(nm)
+        if want is None:
+            raise AnalysisBroken("%s passes a locally resolved path to %s but is not one of the lookup sites whose root the rule knows (%s)" % (short(F.name), last(g.name), ", ".join(sorted(SITE_BASE))))
+        # (contained in the right root is what counts; a further check against some other directory takes nothing away)
+        good = [b for b in bases if b in want]
         r.instance()
-        if not r.expect(arg.get("k") == "var", f, e, "%s: read argument" % label, "%s reads `%s`, which is not a local path variable" % (label, show(arg)[:40])):
-            continue
-        v = arg["n"]
-        decl = [(d, x) for d in f.stmts() if d.node.get("k") == "decl" for x in d.node["vars"] if x["n"] == v and x.get("d") == arg.get("d")]
-        writes = [d for d in f.stmts() if asg(d.node) and key_of(asg(d.node)[0]) == v]
-        ok = len(decl) == 1 and not writes
-        init = strip_views(decl[0][1].get("init")) if ok and decl[0][1].get("init") is not None else None
-        ok = ok and init is not None and init.get("k") == "call" and last(init.get("callee", "")) == "weakly_canonical" and len(init["args"]) >= 2
-        r.expect(ok, f, e, "%s: unresolved path read" % label, "%s reads `%s`, which is not the unmodified result of weakly_canonical(candidate, ec): symbolic links in the request are not resolved before the containment check "
-                 "applies to what is opened" % (label, v), okdesc="%s: read(%s), %s = weakly_canonical(candidate, ec)" % (label, v, v))
-        if not ok:
-            continue
-        cand, ecv = key_of(strip_views(init["args"][0])), key_of(init["args"][1])
-        facts = dominating_facts(f, e)
-        # ec tested
+        if not good and any(has_unknown(b) for b in bases):
+            raise AnalysisBroken("%s: the containment base of `%s` is computed in a way the rule cannot follow (%s)" % (label, v, ", ".join(render(b, F) for b in bases)))
+        r.expect(bool(good), F, e, "%s: containment base" % label, "%s checks containment against `%s`, which is not the canonical root of this lookup (%s)" % (label, render(bases[0], F), " / ".join(render(x, F) for x in want)),
+                 okdesc="%s: base `%s` is the canonical root" % (label, render((good or bases)[0], F)))
+    # regular file, same value
+    r.instance()
+    r.expect("regular" in fl, F, e, "%s: file type" % label, "%s reads `%s` without is_regular_file(%s)" % (label, v, v), okdesc="%s: is_regular_file(%s)" % (label, v))
+    # what was resolved is root / request (judged only where the rest holds: a site that fails above has said what is wrong with it)
+    if bases and "regular" in fl and "ecok" in fl:
         r.instance()
-        r.expect(any(key_of(strip_views(c)) == ecv or (strip_casts(c).get("k") == "mcall" and key_of(strip_casts(c).get("obj")) == ecv) for c, t in facts if t is False), f, e, "%s: error code ignored" % label,
-                 "%s reads without having tested the error code of weakly_canonical" % label, okdesc="%s: ec tested" % label)
-        # containment of the SAME variable
-        cont = [(c, t) for c, t in facts if strip_casts(c).get("k") in ("call", "mcall") and last(strip_casts(c).get("callee", "")) == "isContained"]
-        r.instance()
-        okc = False
-        why = "no dominating isContained(…) on its true edge"
-        for (c, t) in cont:
-            a = strip_casts(c)["args"]
-            tgt = key_of(strip_views(a[1]))
-            why = "the containment check is applied to `%s`, not to the resolved path `%s` that is opened" % (tgt, v)
-            if t and tgt == v:
-                okc = True
-                bname = key_of(strip_views(a[0]))
-                r.instance()
-                r.expect(base_ok(f, bname), f, e, "%s: containment base" % label, "%s checks containment against `%s`, which is not the canonical root" % (label, bname), okdesc="%s: base `%s` is the canonical root" % (label, bname))
-        r.expect(okc, f, e, "%s: containment bypass" % label, "%s reads `%s` although %s: a request naming a symbolic link that leads outside the root is served" % (label, v, why), okdesc="%s: isContained(base, %s) before the read" % (label, v))
-        # regular file on the same variable
-        r.instance()
-        r.expect(any(t and strip_casts(c).get("k") == "call" and last(strip_casts(c).get("callee", "")) == "is_regular_file" and key_of(strip_views(strip_casts(c)["args"][0])) == v for c, t in facts), f, e, "%s: file type" % label,
-                 "%s reads `%s` without is_regular_file(%s)" % (label, v, v), okdesc="%s: is_regular_file(%s)" % (label, v))
-        # candidate = root / request
-        cd = [x for d in f.stmts() if d.node.get("k") == "decl" for x in d.node["vars"] if x["n"] == cand]
-        r.instance()
-        okd = len(cd) == 1 and cd[0].get("init") is not None
-        if okd:
-            i = strip_views(cd[0]["init"])
-            okd = i.get("k") == "opcall" and i.get("op") == "/" and f.params[0]["n"] in show(i["args"][1])
-        r.expect(okd, f, e, "%s: candidate" % label, "the candidate path is not root / request", okdesc="%s: candidate = root / %s" % (label, f.params[0]["n"]))
+        x = t[1]
+        if has_unknown(x):
+            raise AnalysisBroken("%s: what is resolved into `%s` is computed in a way the rule cannot follow (%s)" % (label, v, render(x, F)))
+        r.expect(x[0] == "join" and mentions(x[2], "param"), F, e, "%s: candidate" % label, "the path that is resolved (%s) is not root / request" % render(x, F), okdesc="%s: candidate = %s" % (label, render(x, F)))
 
 
 def r3(ctx, r):
-    sf, tf, ef = af(ctx, "getStaticFilesystem"), af(ctx, "getTemplateFilesystem"), af(ctx, "getStaticEmbedded")
-
-    def member_root(field):
-        def ok(f, name):
-            d = [x for e in f.stmts() if e.node.get("k") == "decl" for x in e.node["vars"] if x["n"] == name]
-            return len(d) == 1 and d[0].get("init") is not None and show(strip_views(d[0]["init"])).endswith(field)
-        return ok
-
-    def canon_external(f, name):
-        d = [x for e in f.stmts() if e.node.get("k") == "decl" for x in e.node["vars"] if x["n"] == name]
-        if len(d) != 1 or d[0].get("init") is None:
-            return False
-        i = strip_views(d[0]["init"])
-        return i.get("k") == "call" and last(i.get("callee", "")) in ("weakly_canonical", "canonical") and key_of(strip_views(i["args"][0])) == "externalDir"
-    site_flow(r, sf, ("buildEntry",), "getStaticFilesystem", member_root("staticsRoot"))
-    site_flow(r, tf, ("readFile",), "getTemplateFilesystem", member_root("templatesRoot"))
-    site_flow(r, ef, ("buildEntry",), "getStaticEmbedded(external)", canon_external)
+    pf = analysis(ctx)
+    per, refused = {}, []
+    for (F, e, g, arg, av, st, note) in pf.sites:
+        if forwarded(pf, F, av[0]):
+            continue        # a forwarded parameter (the obligation is the caller's, R1) or its sibling (R7)
+        per.setdefault(last(F.name), []).append(e)
+        try:
+            site_flow(r, pf, F, e, g, arg, av, st, note)
+        except AnalysisBroken as ex:        # the other sites are still judged; the rule as a whole then refuses
+            refused.append(str(ex))
+    for nm in SITE_BASE:
+        if nm not in per:
+            refused.append("%s: no read found" % SITE_LABEL.get(nm, nm))
     # external branch only for listed paths
-    eb = [e for e in ef.stmts() if e.node.get("k") in ("call", "mcall") and last(e.node.get("callee", "")) == "buildEntry"]
-    r.instance()
-    r.expect(eb and any("isExternalPath(" in show(c) and "path" in show(c) and t for c, t in dominating_facts(ef, eb[0])), ef, None, "external allow-list", "the external directory is read for a path that is not in the registry's externalPaths list", okdesc="external read only for listed paths")
+    ef = af(ctx, "getStaticEmbedded")
+    for e in per.get("getStaticEmbedded", []):
+        r.instance()
+        r.expect(any(t and strip_casts(c).get("k") in ("call", "mcall") and last(strip_casts(c).get("callee", "")) == "isExternalPath" and strip_casts(c).get("args") and ef.params and var_d(strip_casts(c)["args"][0]) == ef.params[0]["d"]
+                     for c, t in dominating_facts(ef, e)), ef, e, "external allow-list", "the external directory is read for a path that is not in the registry's externalPaths list", okdesc="external read only for listed paths")
+    if refused:
+        raise AnalysisBroken("; ".join(refused))
 
+
+# ------------------------------------------------------------------ R4
 
 def r4(ctx, r):
     fb = ctx.fb()
     ic = af(ctx, "isContained")
-    rel = [v for e in ic.stmts() if e.node.get("k") == "decl" for v in e.node["vars"] if v.get("init") is not None and "lexically_relative" in show(v["init"])]
+    roles = contained_roles(ic)
+    rel = [v for vs in decl_vars(ic).values() for v in vs if isinstance(v.get("init"), dict) and (strip_views(v["init"]) or {}).get("k") == "mcall" and last(strip_views(v["init"]).get("callee", "")) == "lexically_relative"]
     r.instance()
-    ok = len(rel) == 1 and "target.lexically_relative(base)" in show(rel[0]["init"])
-    rets = common.returns(ic)
-    fin = [e for e in rets if '".."' in show(e.node) or "\"..\"" in show(e.node)]
-    ok = ok and len(fin) == 1 and "!=" in show(fin[0].node) and "*it" in show(fin[0].node)
-    # the emptiness test is on the variable that holds the relative path, whatever it is called
+    ok = roles is not None and len(rel) == 1 and rel[0]["d"] not in assigned_ds(ic)
     rd = rel[0]["d"] if len(rel) == 1 else None
-    empt = [b for b in ic.blocks.values() if b.cond is not None and any(x.get("k") == "mcall" and last(x.get("callee", "")) == "empty" and strip_casts(x.get("obj") or {}).get("d") == rd for x in walk(b.cond))]
-    ok = ok and len(empt) == 1
+    rets = [e for e in common.returns(ic) if "root" in e.raw]
+    # the one computed verdict: first component of the relative path != ".." — whatever the iterator is called, it is the one taken from
+    # rel.begin() — computed only for a non-empty relative path (an empty one, i.e. no relation between the two paths, ends in `false`);
+    # the two tests may be guard clauses or conjuncts of the returned expression
+    fin = [e for e in rets if const_value(strip_casts(e.node.get("v") or {})) is None]
+    if ok and len(fin) > 1:
+        raise AnalysisBroken("isContained computes its verdict in %d places: a shape the rule cannot read" % len(fin))
+    ok = ok and len(fin) == 1
+    if ok:
+        holds = flatten_fact(unname(ic, fin[0].node["v"]), True) + dominating_facts(ic, fin[0])
+
+        def first_component_not_dotdot(c, t):
+            cp = _cmp_true(strip_casts(c), t)
+            if not cp or cp[0] != "!=":
+                return False
+            for a, b in ((cp[1], cp[2]), (cp[2], cp[1])):
+                a0 = strip_casts(a)
+                if [x.get("v") for x in walk(b) if x.get("k") == "str"] != [".."] or a0 is None or not (a0.get("k") == "opcall" and a0.get("op") == "*" and len(a0["args"]) == 1):
+                    continue
+                it = strip_views(a0["args"][0])
+                if it is not None and it.get("k") == "var":
+                    vs = decl_vars(ic).get(it.get("d"), [])
+                    it = strip_views(vs[0]["init"]) if len(vs) == 1 and isinstance(vs[0].get("init"), dict) and it.get("d") not in assigned_ds(ic) else None
+                if it is not None and it.get("k") == "mcall" and last(it.get("callee", "")) == "begin" and var_d(it.get("obj")) == rd:
+                    return True
+            return False
+        ok = any(first_component_not_dotdot(c, t) for c, t in flatten_fact(unname(ic, fin[0].node["v"]), True))
+        # every other way out says "not contained"
+        ok = ok and all(const_value(strip_casts(e.node.get("v") or {})) == 0 for e in rets if e is not fin[0])
+        ok = ok and any(t is False and strip_casts(c).get("k") == "mcall" and last(strip_casts(c).get("callee", "")) == "empty" and var_d(strip_casts(c).get("obj")) == rd for c, t in holds)
     r.expect(ok, ic, None, "component-wise containment", "isContained is not `rel = target.lexically_relative(base); !rel.empty() && first component != \"..\"`", okdesc="isContained: lexically_relative + first component != '..'")
     deny = ("starts_with", "rfind", "compare", "find", "substr")
     bad = []
     for f in fb.in_file(AF):
-        if not f.ok or last(f.name) in ("lexicallyRejected", "extensionOf", "mimeForExtension", "equalsIgnoreCase"):
+        if not f.ok:
             continue
         for e in f.stmts():
             n = e.node
-            if n.get("k") == "mcall" and last(n.get("callee", "")) in deny and ("filesystem::path" in (strip_casts(n.get("obj") or {}).get("t") or "") or ".string()" in show(n.get("obj") or {}) or ".native()" in show(n.get("obj") or {})):
+            if n.get("k") == "mcall" and last(n.get("callee", "")) in deny and ("filesystem::path" in ((strip_casts(n.get("obj") or {}) or {}).get("t") or "") or ".string()" in show(n.get("obj") or {}) or ".native()" in show(n.get("obj") or {})):
                 bad.append((f, e))
     r.instance()
     r.expect(not bad, bad[0][0] if bad else ic, bad[0][1] if bad else None, "string-prefix containment", "%s compares paths as strings (`%s`): a sibling directory whose name starts with the root's name passes a prefix test" %
              ((short(bad[0][0].name), show(bad[0][1].node)[:50]) if bad else ("", "")), okdesc="no string-prefix comparison on paths")
 
 
-def r5(ctx, r):
-    for nm, cache, reader in (("getStaticFilesystem", "staticCache", "buildEntry"), ("getTemplateFilesystem", "templateCache", "readFile")):
-        f = af(ctx, nm)
-        look = [e for e in f.stmts() if e.node.get("k") == "mcall" and last(e.node.get("callee", "")) in ("find", "at", "operator[]", "count") and cache in show(e.node.get("obj") or {})]
-        if not look:
-            raise AnalysisBroken("%s: no cache lookup" % nm)
-        for e in look:
-            facts = dominating_facts(f, e)
-            r.instance()
-            ok = any(t and strip_casts(c).get("k") in ("call", "mcall") and last(strip_casts(c).get("callee", "")) == "isContained" for c, t in facts) and \
-                any(t and strip_casts(c).get("k") == "call" and last(strip_casts(c).get("callee", "")) == "is_regular_file" for c, t in facts)
-            r.expect(ok, f, e, "cache before the gate: %s" % nm, "%s consults %s before the containment and file-type checks of this request: a name cached earlier is served without being re-validated" % (nm, cache),
-                     okdesc="%s: cache lookup behind isContained + is_regular_file" % nm)
-        # what is stored under the key is what was read for this request's resolved path
-        ins = [e for e in f.stmts() if e.node.get("k") == "mcall" and last(e.node.get("callee", "")) in ("emplace", "insert", "try_emplace", "insert_or_assign") and cache in show(e.node.get("obj") or {})]
-        rd = [e for e in f.stmts() if e.node.get("k") in ("call", "mcall") and last(e.node.get("callee", "")) == reader]
-        r.instance()
-        r.expect(len(ins) == 1 and rd and all(search(f, ("entry",), lambda x, e=ins[0]: x is e, stop=lambda x: x in rd, eh=False) is None for _ in [0]) and key_of(strip_views(ins[0].node["args"][0])) == "key", f, ins[0] if ins else None,
-                 "cache fill: %s" % nm, "%s fills %s on a path that did not read the file for this request" % (nm, cache), okdesc="%s: cache filled only after the read" % nm)
+# ------------------------------------------------------------------ R5
 
+CACHES = ("FsState::staticCache", "FsState::templateCache")
+CACHE_LOOKUP = ("find", "at", "operator[]", "count", "contains", "equal_range", "emplace", "insert", "try_emplace", "insert_or_assign", "emplace_hint", "extract", "erase")
+CACHE_FILL = ("emplace", "insert", "try_emplace", "insert_or_assign", "emplace_hint", "operator[]")
+
+
+def cache_of(n):
+    """name of the cache a member call / subscript operates on"""
+    o = None
+    if n.get("k") == "mcall":
+        o = n.get("obj")
+    elif n.get("k") == "opcall" and n.get("op") == "[]" and n.get("args"):
+        o = n["args"][0]
+    o = strip_casts(o) if o is not None else None
+    if o is not None and o.get("k") == "member" and o.get("n", "").endswith(CACHES):
+        return last(o["n"])
+    return None
+
+
+def r5(ctx, r):
+    pf = analysis(ctx)
+    fb = ctx.fb()
+    readers = {g.name for g, ix in pf.rd.values()}
+    seen = set()
+
+    def checks(av):
+        t, fl = av
+        return frozenset((["resolved"] if t[0] == "canon" else []) + [x if isinstance(x, str) else x[0] for x in fl if x in ("ecok", "regular") or (isinstance(x, tuple) and x[0] == "in")])
+    FULL = frozenset(["resolved", "ecok", "in", "regular"])
+
+    def gated(F, e, depth=0):
+        """the cache is consulted for a request that has passed the checks: where the function reads the file itself (on a miss), the very
+        path it reads has, at the cache access, every check it has at the read (R3 says which those must be — a site R3 reports is not
+        reported a second time here); where it does not, a fully checked path (resolved, error code clear, contained, regular file) exists
+        at the access — in this function or, for a private helper that was handed the checked path, at every call of that helper"""
+        st = pf.flow(F).before(e)
+        mine = [(arg, av) for (F2, e2, g, arg, av, st2, note) in pf.sites if F2 is F and not forwarded(pf, F, av[0])]
+        if st is not None and any(checks(pf.collapse(av)) == FULL for d, av in st):
+            return True
+        if st is not None and mine:
+            return all(var_d(arg) is not None and pf.sget(st, var_d(arg)) is not None and checks(pf.collapse(pf.sget(st, var_d(arg)))) >= checks(av) for arg, av in mine)
+        if depth >= 3 or F.access != "private":
+            return False
+        calls = [(G, x) for G in fb.in_file(AF) if G.ok for x in G.stmts() if x.node.get("k") in ("call", "mcall") and x.node.get("callee") == F.name]
+        return bool(calls) and all(gated(G, x, depth + 1) for G, x in calls)
+    for f in fb.in_file(AF):
+        if not f.ok or f.kind in ("ctor", "dtor"):
+            continue
+        acc = [(e, cache_of(e.node)) for e in f.stmts() if cache_of(e.node) and (last(e.node.get("callee", "")) in CACHE_LOOKUP or e.node.get("k") == "opcall")]
+        for e, cache in acc:
+            seen.add(cache)
+            nm = last(f.name)
+            r.instance()
+            r.expect(gated(f, e), f, e, "cache before the gate: %s" % nm, "%s consults %s before the checks of this request (resolved path, error code, containment, file type) have been made: a name cached earlier is served without being re-validated" % (nm, cache),
+                     okdesc="%s: %s.%s behind resolved + contained + regular file" % (nm, cache, last(e.node.get("callee", "")) or "[]"))
+        # what is stored under the key is what was read for this request: every way to the insertion passes a call of a reader, and the key is
+        # the request string itself (a copy of the function's string parameter)
+        for cache in sorted({c for e, c in acc}):
+            ins = [e for e, c in acc if c == cache and (last(e.node.get("callee", "")) in CACHE_FILL or e.node.get("k") == "opcall")]
+            if not ins:
+                continue
+
+            def after_read(F, e, depth=0):
+                """every way to e passes a call of a reader — in this function or, for a private helper that only stores what it is handed, on
+                the way to each of its calls"""
+                rd = [x for x in F.stmts() if x.node.get("k") in ("call", "mcall") and x.node.get("callee") in readers]
+                if rd:
+                    return search(F, ("entry",), lambda x: x is e, stop=lambda x: x in rd, eh=False) is None
+                if depth >= 2 or F.access != "private":
+                    return False
+                calls = [(G, x) for G in fb.in_file(AF) if G.ok for x in G.stmts() if x.node.get("k") in ("call", "mcall") and x.node.get("callee") == F.name]
+                return bool(calls) and all(after_read(G, x, depth + 1) for G, x in calls)
+
+            def key_is_request(e):
+                a = e.node.get("args", [])
+                k = strip_views(a[1] if e.node.get("k") == "opcall" and len(a) > 1 else (a[0] if a else None))
+                if k is not None and k.get("k") == "var" and k.get("parm") is None:
+                    vs = decl_vars(f).get(k.get("d"), [])
+                    k = strip_views(vs[0]["init"]) if len(vs) == 1 and isinstance(vs[0].get("init"), dict) and k.get("d") not in assigned_ds(f) else None
+                    if k is not None and k.get("k") == "ctor" and len(xargs(k)) == 1:
+                        k = strip_views(xargs(k)[0])
+                return k is not None and k.get("k") == "var" and k.get("parm") is not None and "string" in (k.get("t") or "")
+            r.instance()
+            r.expect(all(after_read(f, e) and key_is_request(e) for e in ins), f, ins[0],
+                     "cache fill: %s" % last(f.name), "%s fills %s on a path that did not read the file for this request, or under a key that is not the requested name" % (last(f.name), cache), okdesc="%s: %s filled only after the read, under the request" % (last(f.name), cache))
+    if len(seen) < 2:
+        raise AnalysisBroken("cache lookups found for %s only (expected staticCache and templateCache)" % (sorted(seen) or "no cache"))
+
+
+# ------------------------------------------------------------------ R6
 
 def r6(ctx, r):
     fd = af(ctx, "fromDirectory")
-    cr = [v for e in fd.stmts() if e.node.get("k") == "decl" for v in e.node["vars"] if v["n"] == "canonicalRoot"]
+    # the canonical root is the local initialised from canonical(<path parameter>), whatever either is called
+    cr = [v for vs in decl_vars(fd).values() for v in vs if isinstance(v.get("init"), dict) and (strip_views(v["init"]) or {}).get("k") == "call" and strip_views(v["init"]).get("callee") == "std::filesystem::canonical" and
+          strip_views(v["init"])["args"] and (strip_views(strip_views(v["init"])["args"][0]) or {}).get("parm") is not None and is_path_type((strip_views(strip_views(v["init"])["args"][0]) or {}).get("t"))]
+    # (what fromDirectory delegates to a helper of the class the rule does not follow: a clause that fails while such a call is present is a
+    # refusal, not a report)
+    helpers = sorted({last(e.node["callee"]) for e in fd.stmts() if e.node.get("k") in ("call", "mcall") and (e.node.get("callee") or "").startswith(AS + "::")})
+
+    def expect(cond, where, construct, msg, okdesc):
+        if not cond and helpers:
+            raise AnalysisBroken("fromDirectory [%s]: not found in fromDirectory itself, which now calls %s — the rule does not follow the construction of the roots into helpers" % (construct, ", ".join(helpers)))
+        return r.expect(cond, fd, where, construct, msg, okdesc=okdesc)
     r.instance()
-    r.expect(len(cr) == 1 and cr[0].get("init") is not None and last(strip_views(cr[0]["init"]).get("callee", "")) == "canonical" and key_of(strip_views(strip_views(cr[0]["init"])["args"][0])) == "root", fd, None, "canonical root",
-             "fromDirectory does not canonicalise the root", okdesc="canonicalRoot = canonical(root)")
+    okc = len(cr) == 1 and cr[0]["d"] not in assigned_ds(fd)
+    expect(okc, None, "canonical root", "fromDirectory does not canonicalise the root", "canonicalRoot = canonical(root)")
+    crd = cr[0]["d"] if len(cr) == 1 else None
+
+    def from_root(n, sub):
+        return any(x.get("k") == "var" and x.get("d") == crd for x in walk(n)) and sub in [x.get("v") for x in walk(n) if x.get("k") == "str"]
+
+    def canon_sub(n, sub):
+        n = strip_views(n)
+        if n is None or n.get("k") != "call" or n.get("callee") not in CANON or not n["args"]:
+            return False
+        j = strip_views(n["args"][0])
+        return j is not None and j.get("k") == "opcall" and j.get("op") == "/" and var_d(j["args"][0]) == crd and sub in [x.get("v") for x in walk(j["args"][1]) if x.get("k") == "str"]
     for fld, sub in (("staticsRoot", "static"), ("templatesRoot", "templates")):
         ws = [e for e in fd.stmts() if asg(e.node) and show(strip_casts(asg(e.node)[0])).endswith(fld)]
         r.instance()
-        ok = len(ws) >= 1 and any("weakly_canonical(canonicalRoot / " in show(asg(e.node)[1]) and sub in show(asg(e.node)[1]) for e in ws) and all("canonicalRoot" in show(asg(e.node)[1]) and sub in show(asg(e.node)[1]) for e in ws)
-        r.expect(ok, fd, ws[0] if ws else None, "root: %s" % fld, "%s is not derived from the canonical root" % fld, okdesc="%s = weakly_canonical(canonicalRoot / \"%s\")" % (fld, sub))
+        ok = crd is not None and len(ws) >= 1 and any(canon_sub(asg(e.node)[1], sub) for e in ws) and all(from_root(asg(e.node)[1], sub) for e in ws)
+        expect(ok, ws[0] if ws else None, "root: %s" % fld, "%s is not derived from the canonical root" % fld, "%s = weakly_canonical(canonicalRoot / \"%s\")" % (fld, sub))
     # the roots are written nowhere else
     fb = ctx.fb()
     others = [(f, e) for f in fb.in_file(AF) if f.ok and f is not fd for e in f.stmts() if asg(e.node) and show(strip_casts(asg(e.node)[0])).endswith(("staticsRoot", "templatesRoot", "->root"))]
@@ -270,47 +1250,54 @@ def r6(ctx, r):
                         others.append((f, e))
             if n.get("k") == "un" and n.get("op") == "&" and root_member(strip_casts(n.get("v") or {})):
                 others.append((f, e))
-            if n.get("k") == "mcall" and root_member(strip_casts(n.get("obj") or {})) and last(n.get("callee", "")) in ("assign", "swap", "clear", "operator=", "operator/=", "operator+=", "append", "concat", "replace_filename", "remove_filename", "make_preferred"):
+            if n.get("k") == "mcall" and root_member(strip_casts(n.get("obj") or {})) and last(n.get("callee", "")) in PATH_MUTATORS + ("concat",):
                 others.append((f, e))
     r.instance()
     r.expect(not others, others[0][0] if others else fd, others[0][1] if others else None, "root rewritten", "a containment root is written (or handed out by non-const reference) outside fromDirectory: the base every lookup is contained "
              "in is no longer pinned at construction — re-resolved after `static/` was replaced by a symlink, it follows the link and lookups are 'contained' in an outside directory", okdesc="roots written only at construction")
 
 
+# ------------------------------------------------------------------ R7
+
 def r7(ctx, r):
+    pf = analysis(ctx)
     be = af(ctx, "buildEntry")
-    rd = [e for e in be.stmts() if e.node.get("k") in ("call", "mcall") and last(e.node.get("callee", "")) == "readFile"]
-    r.instance()
-    ok = len(rd) == 2
-    if ok:
-        args = [key_of(strip_views(e.node["args"][0])) for e in rd]
-        gz = [v for e in be.stmts() if e.node.get("k") == "decl" for v in e.node["vars"] if v["n"] == "gz"]
-        ap = [e for e in be.stmts() if e.node.get("k") == "opcall" and e.node.get("op") == "+=" and key_of(e.node["args"][0]) == "gz"]
-        ok = sorted(args) == ["file", "gz"] and len(gz) == 1 and key_of(strip_views(gz[0]["init"])) == "file" and len(ap) == 1 and [x.get("v") for x in walk(ap[0].node["args"][1]) if x.get("k") == "str"] == [".gz"]
-    r.expect(ok, be, None, "gzip sibling", "buildEntry does not read exactly the checked file and its `.gz` sibling (same directory) through readFile", okdesc="reads: file and file + \".gz\", both through readFile (O_NOFOLLOW leaf)")
+    # every function that forwards its path parameter to a reader (buildEntry; any new wrapper) hands readers nothing but that parameter and its
+    # constant-suffix sibling in the same directory: the containment decision the caller made covers exactly those, and both go through the
+    # O_NOFOLLOW open.  A re-resolved, joined or otherwise derived path is a new location that nobody has checked.
+    for sig, (g, ix) in sorted(pf.rd.items()):
+        mine = [(e, arg, av) for (F, e, g2, arg, av, st, note) in pf.sites if F is g]
+        if not mine:
+            continue
+        terms = [av[0] for (e, arg, av) in mine]
+
+        def allowed(t):
+            return (t[0] == "param" and t[1] in ix) or (t[0] == "concat" and t[1][0] == "param" and t[1][1] in ix and "/" not in t[2] and ".." not in t[2])
+        unk = [t for t in terms if has_unknown(t) and not allowed(t)]
+        if unk:
+            raise AnalysisBroken("%s hands a reader a path computed in a way the rule cannot follow (%s)" % (last(g.name), render(unk[0], g)))
+        r.instance()
+        # (that the file it was handed is among them is what makes it a forwarding reader; whether a sibling is looked for at all is not a
+        # containment matter)
+        ok = all(allowed(t) for t in terms) and any(t[0] == "param" for t in terms)
+        bad = [(e, av) for (e, arg, av) in mine if not allowed(av[0])]
+        r.expect(ok, g, bad[0][0] if bad and g is not be else None, "gzip sibling", "%s does not read exactly the checked file%s through readFile%s" % (last(g.name), " and its `.gz` sibling (same directory)" if g is be else " it was handed",
+                 (": it also reads `%s`" % render(bad[0][1][0], g)) if bad else ""), okdesc="%s reads: %s (O_NOFOLLOW leaf)" % (last(g.name), ", ".join(sorted(render(t, g) for t in terms))))
+    if be.sig not in pf.rd:
+        raise AnalysisBroken("buildEntry no longer forwards its parameter to readFile")
     # no other path derivation
     others = [e for e in be.stmts() if e.node.get("k") == "opcall" and e.node.get("op") in ("/", "/=")]
     r.instance()
     r.expect(not others, be, others[0] if others else None, "path derived in buildEntry", "buildEntry derives another path from the checked one", okdesc="no further path derivation")
 
 
-def anchors(ctx, r):
-    tab = [(af(ctx, "buildEntry"), ["gz", "file"]), (af(ctx, "fromDirectory"), ["canonicalRoot", "root"]), (af(ctx, "isContained"), ["target", "base"]), (af(ctx, "lexicallyRejected"), ["p", "seg", "start", "slash"]),
-           (af(ctx, "readFile"), ["p"]), (af(ctx, "getStaticFilesystem"), ["key"]), (af(ctx, "getTemplateFilesystem"), ["key"])]
-    for f, names in tab:
-        common.require_names(f, names)
-        r.instance()
-        r.ok("%s: %s" % (last(f.name), ", ".join(names)))
-
-
 def run(ctx, ck):
-    r0 = ck.run_rule("C20-R0", "the local names the rules are anchored on exist (a rename makes the analysis refuse — exit 2 — instead of raising a false alarm)", "anchor table", lambda r: anchors(ctx, r))
-    if r0.broken:
-        return
-    ck.run_rule("C20-R1", "closed set of file readers; leaf opened read-only with O_NOFOLLOW", "A3 who-may-call + constant flag word", lambda r: r1(ctx, r))
+    # (no anchor table: no rule of this property identifies a construct through the name of a local variable or parameter; what a rule needs —
+    # "the resolved path", "the cursor of the segment scan", "the relative path", "the canonical root" — is found by dataflow)
+    ck.run_rule("C20-R1", "closed set of file readers; leaf opened read-only with O_NOFOLLOW", "A3 who-may-call (computed forwarder set) + constant flag word", lambda r: r1(ctx, r))
     ck.run_rule("C20-R2", "lexical gate first, with its four rejections", "A2 dominance + table", lambda r: r2(ctx, r))
-    ck.run_rule("C20-R3", "sanitiser flow at every lookup site: resolved path → error test → containment of that variable → regular file → read", "A12 sanitiser flow over dominating facts", lambda r: r3(ctx, r))
+    ck.run_rule("C20-R3", "sanitiser flow at every lookup site: resolved path → error test → containment of that value → regular file → read", "A12 sanitiser flow (forward must-analysis, helper summaries)", lambda r: r3(ctx, r))
     ck.run_rule("C20-R4", "containment is component-wise, never a string prefix", "A10 + deny list", lambda r: r4(ctx, r))
-    ck.run_rule("C20-R5", "caches are consulted and filled only behind the per-request checks", "A2", lambda r: r5(ctx, r))
+    ck.run_rule("C20-R5", "caches are consulted and filled only behind the per-request checks", "A2 + A12", lambda r: r5(ctx, r))
     ck.run_rule("C20-R6", "roots are canonicalised at construction and never rewritten", "A2 + who-may-write", lambda r: r6(ctx, r))
-    ck.run_rule("C20-R7", "the gzip sibling is read through the same reader; no other derived paths", "A2", lambda r: r7(ctx, r))
+    ck.run_rule("C20-R7", "forwarding readers read the checked file and its constant-suffix sibling only; no other derived paths", "A2 + A12", lambda r: r7(ctx, r))
